@@ -3,7 +3,7 @@
 id=$1; shift
 d=/verif/refactors/$id; [ -d $d ] || d=/verif/seeded/$id
 t=$(mktemp -d /tmp/rfsh-XXXXXX)
-cp -r /repo/src $t/src; mkdir -p $t/docs/src; cp -r /repo/docs/src/lvs $t/docs/src/lvs 2>/dev/null
+cp -r ${SRC:-/tmp/pristine}/src $t/src; mkdir -p $t/docs/src; cp -r ${SRC:-/tmp/pristine}/docs/src/lvs $t/docs/src/lvs 2>/dev/null
 (cd $t && git apply $d/patch.diff) || { rm -rf $t; exit 3; }
 for p in "$@"; do (cd /verif && VERIF_EVIDENCE_DIR=$t/ev ./check $p --repo $t 2>&1 | grep -E "^(VIOLATION|ANALYSIS)|^  C[0-9]+\.[A-Z]+\.[0-9a-z]+ \[|Traceback" | cut -c1-400); done
 if [ -n "$SHOW" ]; then (cd / && /verif/tools/showfn.py $SHOW $t); fi
